@@ -173,3 +173,60 @@ for nm, exp in (("commodity", 160), ("bare_zero", 160)):
       bound="pre-balance a X + b Y (16-bit signed, zero = absent); assigned e X (16-bit) / bare 0; unwind 6",
       models=[FMT, DEC, MAP, BUMP, RECNOTE],
       oracle="amount == e - pre[X], post[X] == e, Y untouched; `= 0`: amount == -pre and account empty, Err(BalanceFailure) iff two commodities held")
+
+# --------------------------------------------------------------------------- C04
+prop("C04", title="Reported balances equal the sum of the register, over any date range",
+     level_text="Bounded model checking of the two mechanisms the balance report is made of: DateRange::contains is exactly [start, end) "
+                "for EVERY representable date and optional bounds, adjacent ranges partition their union (so range reports add up); and the "
+                "fold step bal.add_amount(account, amount) of the re-fold is per-commodity addition from an arbitrary account balance over two "
+                "commodities with no zero entry kept. The whole Ledger::balance on a two-transaction ledger with symbolic dates/range is a "
+                "thorough-tier harness. RegisterCmd's running total (inline in a function doing file I/O and printing) and rounding to "
+                "declared precision are outside.",
+     level_note="Trusted: Kani/CBMC; verif_map (capacity 2), verif_dec; static interned names; price conversion cut out of the balance harness "
+                "(no conversion requested).")
+H("C04", file="core/query.rs", name="c04_date_range_contains", timeout=600, expect_s=25,
+  functions=["DateRange::contains", "DateRange::is_bypass", "chrono NaiveDate comparison (real)"],
+  bound="start, end, date, split point: every NaiveDate (year -262143..262142, ordinal 1..366); each bound optional",
+  oracle="contains == (start <= d) && (d < end); [a,c) = [a,b) xor [b,c) for a <= b <= c; bypass only without bounds")
+H("C04", file="core/query.rs", name="c04_add_amount_kernel", timeout=900, expect_s=80, map_cap=2,
+  functions=["Balance::add_amount", "Amount::add_assign", "Amount::remove_zero_entries", "Amount::from_values"],
+  bound="pre-balance a X + b Y, added amount v X [+ w Y]; 16-bit signed values; unwind 6", models=[DEC, MAP],
+  oracle="result == per-commodity sum; entry present iff the sum is non-zero")
+H("C04", file="core/query.rs", name="c04_balance_range_1", tier="thorough", timeout=3000, expect_s=1500, map_cap=2, mem_gb=30,
+  functions=["Ledger::balance (recompute path)", "DateRange::contains", "Balance::add_amount", "Balance::round"],
+  bound="ledger T1(day d1): A v1 X; T2(day d2): A v2 X; d1,d2,start,end in an 8 day window, bounds optional; unwind 4",
+  models=[DEC, MAP, BUMP, FMT, "price_db::convert_amount cut (no conversion requested)"],
+  oracle="balance(A)[X] == sum of v_i with start <= d_i < end; entry present iff non-zero")
+
+# --------------------------------------------------------------------------- C19
+prop("C19", title="Formatted postings are laid out in aligned columns",
+     level_text="Bounded model checking of the column arithmetic every posting line is built from (get_column at both call sites, Alignment "
+                "bookkeeping) for ALL widths below 2^20: at least two spaces after the account, numeric part ends at column 52 whenever "
+                "account width + number width + 2 < 48, an assertion-only posting puts `=` where it falls after an amount in that commodity. "
+                "The real Display of a posting (unicode-width tables, Decimal formatting) and entry separation through the parser are outside; "
+                "the width that feeds the arithmetic is taken as given.",
+     level_note="Trusted: Kani/CBMC; the formulas tying get_column's result to the printed column (4-space indent + account + pad + number) are "
+                "read from WithContext<Posting>::fmt and restated in the harness.")
+H("C19", file="core/display.rs", name="c19_column_arithmetic", timeout=300, expect_s=20,
+  functions=["get_column", "Alignment::plus", "Alignment::absolute"],
+  bound="account width, alignment offset, trailing width: all values < 2^20 (no unwinding: loop free)",
+  oracle="pad >= 2; fits => 4 + aw + pad + al == 52; else pad == 2; assertion-only: 4 + aw + bpad == 54 + trailing when aw + 2 < 50 + trailing")
+
+# --------------------------------------------------------------------------- C20
+IOREC = {"drop_glue::<std::io::Error>": 0}
+prop("C20", title="The golden-file helper compares faithfully and only writes when told to",
+     level_text="Bounded model checking of Golden::new / Golden::assert with the file system and environment replaced by nondeterministic "
+                "stubs: for every golden content and every `got` of <= 2 ASCII bytes (CR and LF included), UPDATE_GOLDEN unset / empty / "
+                "non-empty: without UPDATE_GOLDEN `assert` returns when got equals the CRLF-normalised content and nothing is written or "
+                "changed; with it, exactly one write happens and the file afterwards holds exactly `got`. Outside: the missing-file paths "
+                "(std::io::Error keeps its kind in pointer tag bits that CBMC cannot decode; spurious memory-safety reports), the 'differs => "
+                "panics' direction (same reason on the panic path), longer contents, the real file system.",
+     level_note="Trusted: Kani/CBMC; stubs for std::fs::read_to_string, std::fs::write, std::env::var (one-file symbolic file system), "
+                "str::replace (naive left-to-right model; std's TwoWaySearcher does not finish), fmt::format; file assumed present.")
+for nm in ("c20_no_update_equal", "c20_update"):
+    H("C20", file="golden/lib.rs", name=nm, timeout=900, expect_s=45, recursion=IOREC, env={"VERIF_GOLDEN_N": 2},
+      functions=["Golden::new", "Golden::assert", "read_as_utf8", "is_update_golden"],
+      bound="content and got: every ASCII string (no NUL) of length 0..=2; UPDATE_GOLDEN in {unset, empty} resp. non-empty; unwind 6",
+      models=["std::fs::read_to_string / std::fs::write / std::env::var -> one-file symbolic file system + 3-valued variable",
+              "str::replace -> naive model", FMT, "drop_glue::<io::Error> recursion bounded at 0 (assertion on)"],
+      oracle="no-update: assert returns for got == normalise(content), zero writes, file unchanged; update: one write, file == got")
